@@ -31,6 +31,26 @@ var descPool = []string{
 	"trailing newline\n",
 	"tabs\tinside\nline with : colon\nKey: looks like a field",
 	"dos line endings\r\nsecond\r\n",
+	"white-space-only separator\n   \nsecond paragraph\n\t\nthird paragraph",
+	"synopsis\n \n indented after a one-blank line\n.\n . \nend",
+}
+
+// genDescription: half of the time a pool entry, else 1..6 lines drawn from a small alphabet of line shapes
+// (empty, blank-only, tab-only, dot, indented, trailing blanks, plain, field-like)
+func genDescription(r *rng.R) string {
+	if r.Bool() {
+		return rng.Pick(r, descPool)
+	}
+	shapes := []string{"", " ", "   ", "\t", ".", " .", "  indented", "trailing  ", "plain words", "Key: value", "ünï", "\r"}
+	n := 1 + r.Intn(6)
+	lines := make([]string, n)
+	for i := range lines {
+		lines[i] = rng.Pick(r, shapes)
+	}
+	if lines[0] == "" || strings.TrimSpace(lines[0]) == "" {
+		lines[0] = "synopsis " + lines[0]
+	}
+	return strings.Join(lines, "\n")
 }
 
 var relPool = []string{"bash", "libc6 >= 2.30", "foo = 1.2.3", "bar < 2", "python3", "zsh >= 5", "with-dash", "cap.sule"}
@@ -47,7 +67,7 @@ func genRelList(r *rng.R) []string {
 // genMetaInfo fills the metadata of an Info (contents are added by the caller).
 func genMetaInfo(r *rng.R, info *nfpm.Info) {
 	info.Name = rng.Pick(r, []string{"foo", "foo-bar", "lib_x+1", "a.b2"})
-	info.Description = rng.Pick(r, descPool)
+	info.Description = genDescription(r)
 	info.Maintainer = rng.Pick(r, []string{"Jane Doe <jane@example.com>", "", "  ", "jane@example.com", "Ünï Cödé <u@example.org>"})
 	info.Vendor = rng.Pick(r, []string{"", "ACME Corp"})
 	info.Homepage = rng.Pick(r, []string{"", "https://example.com/x?y=1"})
@@ -303,6 +323,17 @@ func runC02(c *Ctx) error {
 	if err != nil {
 		return err
 	}
+	// every description of the pool once, in every format (deterministic: the corpus of description shapes)
+	for di, d := range descPool {
+		d := d
+		s := &PkgSpec{Umask: 0o022, MTime: 1700000000, Mutate: func(info *nfpm.Info) {
+			info.Description = d
+			nfpm.WithDefaults(info)
+		}}
+		for _, f := range Formats {
+			metaCase(c, fam2, f, s, map[string]any{"description_pool_index": di, "description": d})
+		}
+	}
 	n := c.N(120, 4000)
 	for i := 0; i < n; i++ {
 		seed := r.U64()
@@ -314,6 +345,25 @@ func runC02(c *Ctx) error {
 		s.Mutate = func(info *nfpm.Info) {
 			genMetaInfo(rng.New(seed), info)
 			nfpm.WithDefaults(info)
+		}
+		// the version components the packagers are given must be the ones the configuration states
+		// (model of nfpm.WithDefaults' version handling, Props/C14 split_* theorems)
+		{
+			pi := &nfpm.Info{}
+			genMetaInfo(rng.New(seed), pi)
+			vi := VInfo{Version: pi.Version, Schema: pi.VersionSchema, Prerelease: pi.Prerelease, Metadata: pi.VersionMetadata}
+			want, err := c.D.Ask("vdefaults " + vi.Enc())
+			if err != nil {
+				return err
+			}
+			stated := map[string]any{"version": pi.Version, "version_schema": pi.VersionSchema, "prerelease": pi.Prerelease, "version_metadata": pi.VersionMetadata}
+			nfpm.WithDefaults(pi)
+			got := fmt.Sprintf("%s %s %s", wire.H(pi.Version), wire.H(pi.Prerelease), wire.H(pi.VersionMetadata))
+			if want != got {
+				c.Rep.Find(report.Finding{Property: "C02", Family: "metadata", Shape: "version-components-differ-from-configuration",
+					What:  fmt.Sprintf("nfpm.WithDefaults hands the packagers version=%q prerelease=%q metadata=%q; the configuration states (model) %s", pi.Version, pi.Prerelease, pi.VersionMetadata, want),
+					Input: map[string]any{"case_seed": seed, "configured": stated}})
+			}
 		}
 		for _, f := range Formats {
 			metaCase(c, fam2, f, s, map[string]any{"case_seed": seed, "contents": withContents})
